@@ -360,6 +360,12 @@ fn real_main() {
             Pat { kind: 10, n: 2500 * 29, seed: 3, chunk: 2 + 12 + 18 }, // 2500 x 29, stride 3
             Pat { kind: 10, n: 6000 * 16, seed: 4, chunk: 1 + 90 },     // 6000 x 16, eight workers at a time
         ];
+        let mut fixed = fixed;
+        if ctx.thorough() {
+            fixed.push(Pat { kind: 10, n: 31250 * 32, seed: 5, chunk: 3 }); // 10^6 nodes from 31250 workers, column by column
+            fixed.push(Pat { kind: 10, n: 10000 * 32, seed: 6, chunk: 3 + 6 }); // 10000 x 32, alternating direction
+            fixed.push(Pat { kind: 10, n: 1000 * 64, seed: 7, chunk: 5 + 12 + 54 }); // 1000 x 64, stride 19
+        }
         ctx.exhaustive("thread-built-nodes-interleaved", "treap-pattern", "1500..6000 worker threads x 16..40 nodes each, merged column by column / alternating / strided", false, fixed, run_pat);
         let strat = (60_000u32..=160_000, any::<u32>(), any::<u16>()).prop_map(|(n, seed, chunk)| Pat { kind: 10, n, seed, chunk });
         ctx.prop_cfg("thread-built-nodes-interleaved-generated", "treap-pattern", ctx.n(6, 120), 16, strat, run_pat);
